@@ -370,3 +370,117 @@ Corollary ensure_cycle_frame : forall f stack s k s' p, ensure rules env F order
 Proof. intros f stack s k s' p H. pose proof (ensure_frame f stack s k) as Hf. rewrite H in Hf. exact Hf. Qed.
 
 End Lift.
+
+(* ---------- fuel monotonicity: more fuel never changes an outcome other than OutOfFuel ---------- *)
+
+Section Mono.
+Variable rules : key -> rule.
+Variable env : key -> N.
+Variable F : key -> N -> list value -> list N -> N -> N.
+Variable order : N -> key -> list dep -> list dep.
+Variable ens1 ens2 : list key -> state -> key -> outcome.
+Hypothesis Hmono : forall stack s k, ens1 stack s k <> OutOfFuel -> ens2 stack s k = ens1 stack s k.
+
+Lemma requests_mono : forall k stack ks slot s acc,
+  fst (requests ens1 k stack ks slot s acc) <> OutOfFuel ->
+  requests ens2 k stack ks slot s acc = requests ens1 k stack ks slot s acc.
+Proof.
+  intros k stack ks. induction ks as [|x ks IH]; intros slot s acc H; cbn [requests] in *; [reflexivity|].
+  pose proof (Hmono (k :: stack) s x) as Hx.
+  destruct (ens1 (k :: stack) s x) as [s1|s1 p|] eqn:E.
+  - rewrite Hx by discriminate. now apply IH.
+  - rewrite Hx by discriminate. reflexivity.
+  - cbn in H. now contradiction H.
+Qed.
+
+Lemma follows_mono : forall k stack ks s,
+  follows ens1 k stack ks s <> OutOfFuel -> follows ens2 k stack ks s = follows ens1 k stack ks s.
+Proof.
+  intros k stack ks. induction ks as [|x ks IH]; intros s H; cbn [follows] in *; [reflexivity|].
+  pose proof (Hmono (k :: stack) s x) as Hx.
+  destruct (ens1 (k :: stack) s x) as [s1|s1 p|] eqn:E.
+  - rewrite Hx by discriminate. now apply IH.
+  - rewrite Hx by discriminate. reflexivity.
+  - now contradiction H.
+Qed.
+
+Lemma run_mono : forall k stack r s,
+  run rules env F order ens1 k stack r s <> OutOfFuel ->
+  run rules env F order ens2 k stack r s = run rules env F order ens1 k stack r s.
+Proof.
+  intros k stack r s H. unfold run in *. fold (run_pre rules k r s) in *. set (s0 := run_pre rules k r s) in *.
+  destruct (requests ens1 k stack (r_req (rules k)) 0 s0 []) as [o1 sl1] eqn:E1.
+  rewrite requests_mono by (rewrite E1; cbn; intros ->; now apply H). rewrite E1.
+  destruct o1 as [s1|s1 p|]; [|reflexivity|reflexivity].
+  destruct (requests ens1 k stack (r_single (rules k)) (length sl1) s1 []) as [o2 sl2] eqn:E2.
+  rewrite requests_mono by (rewrite E2; cbn; intros ->; now apply H). rewrite E2.
+  destruct o2 as [s2|s2 p|]; [|reflexivity|reflexivity].
+  destruct (follows ens1 k stack (r_follow (rules k)) s2) as [s3|s3 p|] eqn:E3;
+    (rewrite follows_mono by (rewrite E3; intros Ho; try discriminate Ho; now apply H)); rewrite E3;
+    [|reflexivity|reflexivity].
+  destruct (requests ens1 k stack (branch_keys (rules k) sl1) (length sl1 + length sl2) s3 []) as [o4 sl3] eqn:E4.
+  rewrite requests_mono by (rewrite E4; cbn; intros ->; now apply H). rewrite E4.
+  destruct o4 as [s4|s4 p|]; [|reflexivity|reflexivity].
+  now apply follows_mono.
+Qed.
+
+Lemma scan_mono : forall k stack r ds s,
+  scan rules env F order ens1 k stack r ds s <> OutOfFuel ->
+  scan rules env F order ens2 k stack r ds s = scan rules env F order ens1 k stack r ds s.
+Proof.
+  intros k stack r ds. induction ds as [|d ds IH]; intros s H; cbn [scan] in *; [reflexivity|].
+  pose proof (Hmono (k :: stack) s (d_key d)) as Hx.
+  destruct (ens1 (k :: stack) s (d_key d)) as [s1|s1 p|] eqn:E.
+  - rewrite Hx by discriminate.
+    destruct (negb (d_order d) && (res_builtAt r <? res_computedAt (get (st_mem s1) (d_key d)))).
+    + now apply run_mono.
+    + now apply IH.
+  - rewrite Hx by discriminate. reflexivity.
+  - now contradiction H.
+Qed.
+
+Lemma ensure_body_mono : forall stack s k,
+  ensure_body rules env F order ens1 stack s k <> OutOfFuel ->
+  ensure_body rules env F order ens2 stack s k = ensure_body rules env F order ens1 stack s k.
+Proof.
+  intros stack s k H. unfold ensure_body in *.
+  destruct (existsb (N.eqb k) stack); [reflexivity|].
+  destruct (N.eqb (res_builtAt (get (st_mem s) k)) (st_epoch s)); [reflexivity|].
+  set (r := mkRes _ _ _ _ _) in *.
+  destruct (N.eqb (res_builtAt r) 0); [now apply run_mono|].
+  destruct (flagged (set_mem s k r) k); [now apply run_mono|].
+  destruct (negb (N.eqb (r_sig (rules k)) (res_sig r))); [now apply run_mono|].
+  destruct (negb (valid rules env k r)); [now apply run_mono | now apply scan_mono].
+Qed.
+
+End Mono.
+
+Section MonoLift.
+Variable rules : key -> rule.
+Variable env : key -> N.
+Variable F : key -> N -> list value -> list N -> N -> N.
+Variable order : N -> key -> list dep -> list dep.
+
+Theorem ensure_fuel_S : forall f stack s k, ensure rules env F order f stack s k <> OutOfFuel ->
+  ensure rules env F order (S f) stack s k = ensure rules env F order f stack s k.
+Proof.
+  induction f as [|f IH]; intros stack s k H.
+  - now contradiction H.
+  - change (ensure_body rules env F order (ensure rules env F order (S f)) stack s k =
+            ensure_body rules env F order (ensure rules env F order f) stack s k).
+    apply ensure_body_mono; [exact IH | exact H].
+Qed.
+
+Theorem ensure_fuel_mono : forall f f' stack s k, (f <= f')%nat ->
+  ensure rules env F order f stack s k <> OutOfFuel ->
+  ensure rules env F order f' stack s k = ensure rules env F order f stack s k.
+Proof.
+  intros f f' stack s k Hle H. induction Hle as [|m Hle IH]; [reflexivity|].
+  rewrite ensure_fuel_S; rewrite IH; [reflexivity | exact H].
+Qed.
+
+Corollary ensure_fuel_ok : forall f stack s k s', ensure rules env F order f stack s k = Ok s' ->
+  ensure rules env F order (S f) stack s k = Ok s'.
+Proof. intros f stack s k s' H. rewrite ensure_fuel_S; rewrite H; [reflexivity | discriminate]. Qed.
+
+End MonoLift.
